@@ -187,6 +187,36 @@ func genC01Cases(ctx *Ctx) []c01Input {
 			inputs = append(inputs, c01Input{Driver: "badger", Graph: fg, Prog: p})
 		}
 	}
+	// unwind of a nested list: every row gets its own copy of the inner map, and a mark taken before keeps the list
+	{
+		ng := tGraph{V: []tVertex{
+			{ID: "a", Label: "P", Data: map[string]interface{}{"name": "x", "n": map[string]interface{}{"j": []interface{}{1.0, 2.0, 3.0}, "k": "x"}}},
+			{ID: "b", Label: "P", Data: map[string]interface{}{"n": map[string]interface{}{"j": []interface{}{}, "k": []interface{}{"u", "v"}}}},
+			{ID: "c", Label: "Q", Data: map[string]interface{}{"n": "text"}},
+			{ID: "d", Label: "Q", Data: map[string]interface{}{"n": map[string]interface{}{"j": map[string]interface{}{"deep": []interface{}{"p", "q"}}}}}},
+			E: []tEdge{{ID: "e0", Label: "knows", From: "a", To: "b", Data: map[string]interface{}{"n": map[string]interface{}{"j": []interface{}{7.0, 8.0}}}}}}
+		for _, f := range []string{"n.j", "n.k", "n", "n.j.deep", "n.missing", "n.j.x"} {
+			for _, st := range []tStmt{{Op: "V"}, {Op: "E"}} {
+				inputs = append(inputs, c01Input{Driver: "badger", Graph: ng, Prog: []tStmt{st, {Op: "unwind", Str: f}}},
+					c01Input{Driver: "badger", Graph: ng, Prog: []tStmt{st, {Op: "as", Str: "m1"}, {Op: "unwind", Str: f}, {Op: "select", Strs: []string{"m1"}}}},
+					c01Input{Driver: "badger", Graph: ng, Prog: []tStmt{st, {Op: "unwind", Str: f}, {Op: "as", Str: "m1"}, {Op: "unwind", Str: "n.k"}, {Op: "select", Strs: []string{"m1"}}}},
+					c01Input{Driver: "badger", Graph: ng, Prog: []tStmt{st, {Op: "unwind", Str: f}, {Op: "render", Tpl: map[string]interface{}{"j": "n.j", "k": "n.k"}}}})
+			}
+		}
+	}
+	// a mark name bound again to an element of the other kind: its static type is the type of the last binding
+	for _, p := range [][]tStmt{
+		{{Op: "V"}, {Op: "as", Str: "m1"}, {Op: "outE"}, {Op: "as", Str: "m1"}, {Op: "out"}, {Op: "select", Strs: []string{"m1"}}},
+		{{Op: "V"}, {Op: "as", Str: "m1"}, {Op: "outE"}, {Op: "as", Str: "m1"}, {Op: "out"}, {Op: "select", Strs: []string{"m1"}}, {Op: "out"}},
+		{{Op: "V"}, {Op: "as", Str: "m1"}, {Op: "outE"}, {Op: "as", Str: "m1"}, {Op: "out"}, {Op: "select", Strs: []string{"m1"}}, {Op: "outE"}},
+		{{Op: "V"}, {Op: "as", Str: "m1"}, {Op: "outE"}, {Op: "as", Str: "m1"}, {Op: "select", Strs: []string{"m1"}}, {Op: "count"}},
+		{{Op: "E"}, {Op: "as", Str: "m1"}, {Op: "out"}, {Op: "as", Str: "m1"}, {Op: "select", Strs: []string{"m1"}}, {Op: "outE"}},
+		{{Op: "E"}, {Op: "as", Str: "m1"}, {Op: "in"}, {Op: "as", Str: "m1"}, {Op: "inE"}, {Op: "select", Strs: []string{"m1"}}},
+		{{Op: "V"}, {Op: "as", Str: "m1"}, {Op: "as", Str: "m2"}, {Op: "outE"}, {Op: "as", Str: "m1"}, {Op: "select", Strs: []string{"m1", "m2"}}},
+		{{Op: "V"}, {Op: "as", Str: "m1"}, {Op: "outE"}, {Op: "as", Str: "m1"}, {Op: "in"}, {Op: "as", Str: "m1"}, {Op: "select", Strs: []string{"m1"}}, {Op: "outE"}},
+	} {
+		inputs = append(inputs, c01Input{Driver: "badger", Graph: fg, Prog: p})
+	}
 	// null-producing moves: a traveler without a current element reaching every step of the alphabet, marked and selected
 	for _, st := range starts[:2] {
 		for _, nm := range []tStmt{{Op: "outNull"}, {Op: "inNull", Strs: []string{"likes"}}, {Op: "outENull", Strs: []string{"knows"}}, {Op: "inENull"}} {
